@@ -114,3 +114,128 @@ Example C04_nonvacuous_lossy :
   defects_C04 xs (q "Times") m = [] /\ rt_holds Ex xs (q "Times") m = true /\
   norm xs (q "Times") m = [(s "secs", tsv 5 0); (s "day", tsv 86400 0); (s "id", vstr "x")].
 Proof. exact C04_nonvacuous_ts_lossy. Qed.
+
+(* ---- appended by P1_int64 ---- *)
+
+(* the int64 NUMBER codec (encoding.go:124-319), in general: every schema, every well-typed value —
+   singular and repeated NUMBER-encoded fields of all 64-bit kinds (int64, uint64, sint64, fixed64,
+   sfixed64), zero elements, negatives, values beyond 2^53, the extremes of the range *)
+From SebufProofs Require Import Int64Facts.
+Theorem C04_roundtrip_int64 : forall E, ExtLaws E -> forall sc tn md m j,
+  str_eqb tn ts_name = false -> is_wkt_other tn = false ->
+  find_message (all_messages sc) tn = Some md -> owner_of sc md = Own FtInt64 ->
+  buildable sc FtInt64 md = true ->
+  nodup_str (map jn (m_fields md)) = true ->
+  wt sc (KMessage tn) (FM m) = true ->
+  encode E sc tn m = ROk j -> decode E sc tn j = ROk (norm sc tn m).
+Proof. exact int64_roundtrip. Qed.
+Print Assumptions C04_roundtrip_int64.
+
+(* the same without the two schema hypotheses: they follow from wt (distinct json names) and from
+   encode = ROk (the emitted code compiles) *)
+Theorem C04_roundtrip_int64_min : forall E, ExtLaws E -> forall sc tn md m j,
+  str_eqb tn ts_name = false -> is_wkt_other tn = false ->
+  find_message (all_messages sc) tn = Some md -> owner_of sc md = Own FtInt64 ->
+  wt sc (KMessage tn) (FM m) = true ->
+  encode E sc tn m = ROk j -> decode E sc tn j = ROk (norm sc tn m).
+Proof. exact int64_roundtrip_min. Qed.
+Print Assumptions C04_roundtrip_int64_min.
+
+Example C04_int64_nonvacuous :
+  exists md,
+    str_eqb (q "Wide") ts_name = false /\ is_wkt_other (q "Wide") = false /\
+    find_message (all_messages i64s) (q "Wide") = Some md /\ owner_of i64s md = Own FtInt64 /\
+    buildable i64s FtInt64 md = true /\ nodup_str (map jn (m_fields md)) = true /\
+    wt i64s (KMessage (q "Wide")) (FM wide_val) = true /\
+    encode Ex i64s (q "Wide") wide_val = ROk wide_json /\
+    decode Ex i64s (q "Wide") wide_json = ROk wide_val.
+Proof. exact int64_nonvacuous. Qed.
+
+(* ---- appended by P2_bytes ---- *)
+
+(* ---- the bytes_encoding codec (bytes_encoding.go), in general: every schema, every well-typed value,
+   HEX / BASE64_RAW / BASE64URL / BASE64URL_RAW, singular and optional fields, empty and non-empty
+   byte strings (proofs/BytesFacts.v) ---- *)
+From SebufProofs Require Import BytesFacts BytesConforms.
+Theorem C04_roundtrip_bytes : forall E, ExtLaws E -> forall sc tn md m j,
+  str_eqb tn ts_name = false -> is_wkt_other tn = false ->
+  find_message (all_messages sc) tn = Some md -> owner_of sc md = Own FtBytes ->
+  buildable sc FtBytes md = true ->
+  nodup_str (map jn (m_fields md)) = true ->
+  wt sc (KMessage tn) (FM m) = true ->
+  encode E sc tn m = ROk j -> decode E sc tn j = ROk (norm sc tn m).
+Proof. exact bytes_roundtrip. Qed.
+Print Assumptions C04_roundtrip_bytes.
+(* the same without the two redundant hypotheses: distinct JSON names are part of well-typedness
+   (msg_ok), and a codec that does not compile never returns a JSON value *)
+Theorem C04_roundtrip_bytes_strong : forall E, ExtLaws E -> forall sc tn md m j,
+  str_eqb tn ts_name = false -> is_wkt_other tn = false ->
+  find_message (all_messages sc) tn = Some md -> owner_of sc md = Own FtBytes ->
+  wt sc (KMessage tn) (FM m) = true ->
+  encode E sc tn m = ROk j -> decode E sc tn j = ROk (norm sc tn m).
+Proof. exact bytes_roundtrip_gen. Qed.
+Print Assumptions C04_roundtrip_bytes_strong.
+(* the encoder never writes CR / LF under an annotated key (dec_bytes declines such texts) *)
+Theorem C04_bytes_encode_no_crlf : forall E sc tn md m es k x f e,
+  str_eqb tn ts_name = false -> is_wkt_other tn = false ->
+  find_message (all_messages sc) tn = Some md -> owner_of sc md = Own FtBytes ->
+  wt sc (KMessage tn) (FM m) = true ->
+  encode E sc tn m = ROk (JObj es) -> In (k, JStr x) es ->
+  field_by_json (m_fields md) k = Some f -> bytesenc_of f = Some e -> has_crlf x = false.
+Proof. exact bytes_encode_no_crlf. Qed.
+Print Assumptions C04_bytes_encode_no_crlf.
+Example C04_bytes_nonvacuous :
+  exists md,
+    str_eqb (q "B") ts_name = false /\ is_wkt_other (q "B") = false /\
+    find_message (all_messages bxs) (q "B") = Some md /\ owner_of bxs md = Own FtBytes /\
+    buildable bxs FtBytes md = true /\ nodup_str (map jn (m_fields md)) = true /\ bytesplain_msg md = true /\
+    wt bxs (KMessage (q "B")) (FM bval) = true /\
+    nodup_str (map fst bval) = true /\ forallb (bytes_value_ok bxs md) bval = true /\
+    encode Ex bxs (q "B") bval = ROk bjson /\ to_json Ex bxs (q "B") bval = ROk bjson /\
+    decode Ex bxs (q "B") bjson = ROk bval.
+Proof. exact bytes_nonvacuous. Qed.
+Print Assumptions C04_bytes_nonvacuous.
+
+(* ---- appended by P3_ts ---- *)
+
+(* the timestamp_format codec (timestamp_format.go), in general: every schema, every well-typed value
+   (Timestamps in 0001-01-01..9999-12-31, nanos in [0, 1e9), negative seconds included), for
+   UNIX_SECONDS, UNIX_MILLIS and DATE, modulo the documented truncation [norm] *)
+From SebufProofs Require Import TimestampFacts TimestampConforms.
+Theorem C04_roundtrip_ts : forall E, ExtLaws E -> forall sc tn md m j,
+  str_eqb tn ts_name = false -> is_wkt_other tn = false ->
+  find_message (all_messages sc) tn = Some md -> owner_of sc md = Own FtTs ->
+  buildable sc FtTs md = true ->
+  nodup_str (map jn (m_fields md)) = true ->
+  wt sc (KMessage tn) (FM m) = true ->
+  encode E sc tn m = ROk j -> decode E sc tn j = ROk (norm sc tn m).
+Proof. exact ts_roundtrip. Qed.
+Print Assumptions C04_roundtrip_ts.
+
+Example C04_ts_nonvacuous :
+  exists md,
+    str_eqb (q "Stamps") ts_name = false /\ is_wkt_other (q "Stamps") = false /\
+    find_message (all_messages tss) (q "Stamps") = Some md /\ owner_of tss md = Own FtTs /\
+    buildable tss FtTs md = true /\ nodup_str (map jn (m_fields md)) = true /\
+    forallb tsplain_field (m_fields md) = true /\
+    wt tss (KMessage (q "Stamps")) (FM ts_sample) = true /\
+    nodup_str (map fst ts_sample) = true /\ forallb (ts_entry_ok tss md) ts_sample = true /\
+    encode Ex tss (q "Stamps") ts_sample =
+      ROk (JObj [(s "atSecs", JNum (-5)); (s "atMillis", JNum (-1500)); (s "onDay", JStr (s "1969-12-31"));
+                 (s "plainAt", JStr (s "1970-01-01T00:00:01.000000005Z")); (s "id", JStr (s "x"));
+                 (s "more", JArr [JStr (s "1970-01-01T00:00:03.000000004Z")])]) /\
+    to_json Ex tss (q "Stamps") ts_sample = encode Ex tss (q "Stamps") ts_sample /\
+    norm tss (q "Stamps") ts_sample =
+      [(s "at_secs", tsv (-5) 0); (s "at_millis", tsv (-2) 500000000); (s "on_day", tsv (-86400) 0);
+       (s "plain_at", tsv 1 5); (s "id", vstr "x"); (s "more", FL [tsv 3 4])] /\
+    (forall j, encode Ex tss (q "Stamps") ts_sample = ROk j ->
+               decode Ex tss (q "Stamps") j = ROk (norm tss (q "Stamps") ts_sample)).
+Proof. exact ts_nonvacuous. Qed.
+Print Assumptions C04_ts_nonvacuous.
+
+Example C04_ts_negative_millis_floor :
+  encode Ex tss (q "Stamps") [(s "at_millis", tsv (-2) 500999999)] = ROk (JObj [(s "atMillis", JNum (-1500))]) /\
+  decode Ex tss (q "Stamps") (JObj [(s "atMillis", JNum (-1500))]) = ROk [(s "at_millis", tsv (-2) 500000000)] /\
+  decode Ex tss (q "Stamps") (JObj [(s "atMillis", JNum (-1))]) = ROk [(s "at_millis", tsv (-1) 999000000)].
+Proof. exact ts_negative_millis_floor. Qed.
+Print Assumptions C04_ts_negative_millis_floor.
